@@ -26,3 +26,21 @@ package frugal
 //@ func SetMaxInlineILSize(size int) (r int)
 //@   modifies nothing
 //@   ensures c17_echo: r == size
+
+// EncodeObject: the caller's buffer is an append accumulator of capacity len(buf). Memory changes
+// only inside buf[0:len(buf)] (and in memory allocated during the call); a result that does not fit
+// is reported as an error with n == 0, a result that fits is returned with its exact length and
+// sits at the start of buf. $wire is the byte sequence the struct writer produced.
+//@ const ghost $wire = BSeq
+//@ const ghost $encerr = Int
+//@ const ghost $win = BSeq
+//@ func EncodeObject(buf []byte, w thrift.NocopyWriter, val any) (n int, err error)
+//@   requires buf.ptr + cap(buf) <= $brk
+//@   modifies M[buf.ptr : buf.ptr + len(buf)], $brk, $encp, $wire, $encerr, $win
+//@   after Append ghost $wire = abs_r
+//@   after Append ghost $win = abs_b
+//@   after Append ghost $encerr = res_err
+//@   ensures c04_short: slen($wire) > len(buf) ==> err != nil && n == 0
+//@   ensures c04_fit: slen($wire) <= len(buf) ==> n == slen($wire) && err == $encerr
+//@   ensures c02_inplace: slen($wire) <= len(buf) ==> forall i Int :: {at($wire, i)} 0 <= i && i < n ==> M[buf.ptr + i] == at($wire, i)
+//@   ensures c02_wire: $encerr == nil ==> $wire == WS(sdFor(rvOf(val)), old(M), $encp, $win) && slen($win) == 0
